@@ -274,6 +274,8 @@ func (h *c15H) lookTerm() string {
 }
 
 func (h *c15H) overtake(name string) {
+	h.mu.Lock()
+	defer h.mu.Unlock()
 	for _, l := range h.late {
 		if l.name == name {
 			l.overtaken = true
@@ -387,19 +389,21 @@ func (h *c15H) exec(op c15Op, nested bool) {
 		h.emit(c15Item{s: fmt.Sprintf("TPoll %s %s", ans, coqBool(err == nil)), kind: "poll"})
 		h.tag("gated-refresh")
 	case "new":
-		h.doNew(h.ctx, name, op, nested, nil)
+		h.guarded(func() { h.doNew(h.ctx, name, op, nested, nil) })
 	case "look":
 		if nested {
 			return
 		}
-		h.resetLookups()
-		f, err := h.st.LookupSecret(h.ctx, name)
-		ok := err == nil && f != nil
-		h.emit(c15Item{s: fmt.Sprintf("TLook %s %s %s", coqBytes([]byte(name)), h.lookTerm(), coqBool(ok)), kind: "look"})
-		if ok {
-			h.overtake(name)
-		}
-		h.tag("look")
+		h.guarded(func() {
+			h.resetLookups()
+			f, err := h.st.LookupSecret(h.ctx, name)
+			ok := err == nil && f != nil
+			h.emit(c15Item{s: fmt.Sprintf("TLook %s %s %s", coqBytes([]byte(name)), h.lookTerm(), coqBool(ok)), kind: "look"})
+			if ok {
+				h.overtake(name)
+			}
+			h.tag("look")
+		})
 	case "read":
 		tok := "None"
 		func() {
@@ -509,6 +513,46 @@ func (h *c15H) exec(op c15Op, nested bool) {
 		e := h.ups[i].err()
 		h.emit(c15Item{s: fmt.Sprintf("TErr %d %s", i, coqBool(e)), kind: "err"})
 	}
+}
+
+// guarded runs a lookup-capable call while other callers are held in the window.  In the code as it
+// is, a held caller owns nothing, so the call completes.  An implementation in which the held caller
+// already owned the flight would make this call join it and wait for the gate: that is turned into a
+// reported failure with the input as replay instead of a deadlocked bubble.
+func (h *c15H) guarded(f func()) {
+	if len(h.late) == 0 {
+		f()
+		return
+	}
+	done := make(chan struct{})
+	var perr any
+	go func() {
+		defer close(done)
+		defer func() { perr = recover() }()
+		f()
+	}()
+	synctest.Wait()
+	select {
+	case <-done:
+		if perr != nil {
+			panic(perr)
+		}
+		return
+	default:
+	}
+	var ls []*c15Late
+	for _, l := range h.late {
+		ls = append(ls, l)
+	}
+	for _, l := range ls {
+		close(l.g.gate)
+	}
+	<-done
+	for _, l := range ls {
+		<-l.done
+	}
+	h.late = map[int]*c15Late{}
+	panic("a lookup of the name blocked behind a caller that is held before its flight starts")
 }
 
 // NewUpdater(ctx, name); late != nil: the call is made by a held caller (ctx is its gate context)
